@@ -31,7 +31,7 @@ e: L6
 a.b -> e: L7
 e -> a.c: L8
 `},
-	{Name: "parallel", Text: "a: L1\nb: L2\na -> b: L3\na -> b: L4\nb -> a: L5\na -> b: L6\n"},
+	{Name: "parallel", Text: "a: L1\nb: L2\na -> b: L3\na -> b: L4\nb -> a: L5\na -> b: L6\n(a -> b)[1].style.stroke: red\n"},
 	{Name: "chain", Text: "a: L1\nb: L2\nc: L3\na -> b -> c\n(a -> b)[0]: L4\n(b -> c)[0]: L5\n"},
 	{Name: "styles", Text: `a: L1 {
   style: {
